@@ -14,7 +14,6 @@ package nsqd
 
 import (
 	"bytes"
-	"encoding/hex"
 	"fmt"
 	"io"
 	"net"
@@ -196,17 +195,6 @@ func (e *vfE1NumEnv) connect() net.Conn {
 	conn.SetDeadline(time.Now().Add(10 * time.Second))
 	identify(e.t, conn, nil, frameTypeResponse)
 	return conn
-}
-
-func vfE1Unhex(h string) []byte {
-	if h == "-" {
-		return nil
-	}
-	b, err := hex.DecodeString(h)
-	if err != nil {
-		panic("bad hex in op line: " + h)
-	}
-	return b
 }
 
 // exec runs one operation line on the real code. It returns the (possibly completed) operation
@@ -429,6 +417,7 @@ func TestVerifNumCorr(t *testing.T) {
 	n := vfEnvInt("VERIF_N", 4000)
 	e := vfE1NewNumEnv(t)
 	defer e.nsqd.Exit()
+	defer vfE1PanicGuard("a numeric handler call", out)()
 	run := func(line string) {
 		for try := 0; try < 5; try++ {
 			op, impl, redo := e.exec(line)
